@@ -125,6 +125,9 @@ type CompiledCode struct {
 	Linked  bool // whether recursive code already have linked
 	CurLen  uintptr
 	NextLen uintptr
+	// IndentDiff is the indent level of the program's value where it was compiled: the fields of a
+	// struct are one level deeper than the struct, the head of a slice or map is at its own level
+	IndentDiff uint32
 }
 
 const StartDetectingCyclesAfter = 1000
